@@ -224,6 +224,10 @@ def source_expr(kind, inp, idx):
     lit = ", ".join("%du64" % x for x in inp)
     if kind == "array":
         return "const A%d: [u64; %d] = [%s];" % (idx, len(inp), lit), "&A%d, copied()" % idx
+    if kind == "slice_ref":        # ConstIntoIter for &&[T]
+        return "const R%d: &[u64] = &[%s];" % (idx, lit), "&R%d, copied()" % idx
+    if kind == "array_ref_ref":    # ConstIntoIter for &&[T; N]
+        return "const Q%d: &[u64; %d] = &[%s];" % (idx, len(inp), lit), "&Q%d, copied()" % idx
     if kind == "iter_copied":
         return "const I%d: &[u64] = &[%s];" % (idx, lit), "konst::slice::iter_copied(I%d)" % idx
     if kind == "range":
